@@ -340,7 +340,7 @@ def judge_delivery(rep, hists, label, shards=8):
     rep.cov["histories_with_unsubscribe_judged_with_full_window"] = rep.cov.get("histories_with_unsubscribe_judged_with_full_window", 0) + len(cand)
 
 
-def mutate_selftests(rep, hists, tests, tries=6):
+def mutate_selftests(rep, hists, tests, tries=16):
     """Binding self-tests: corrupt one recorded fact and require BrokerTrace to reject it with the right predicate."""
     cands = sorted(hists, key=len, reverse=True)
 
